@@ -96,6 +96,9 @@ def gen(rng, nm, na):
                 break
         c["spec"]["mg"]["n"] = rng.choice([1, 2, 3])
         c["spec"]["mg"]["discon"] = rng.random() < 0.5
+        if ctrl == "main" and rng.random() < 0.5:      # partial instrumentation (lines without sensor, plain disconnectors)
+            from . import c06
+            c["spec"]["ctrl"]["nodev"] = c06.missing_devices(rng, c["spec"], p=0.35)
         ps = net.build(c["spec"])
         mg_lines = [l.name for l in ps.lines if l.name.startswith("ML")]
         d_lines = [l.name for l in ps.lines if l.name.startswith("F0")]
@@ -117,6 +120,15 @@ def gen(rng, nm, na):
             c["faults"] = {}
             for _ in range(rng.randint(1, 4)):
                 c["faults"].setdefault(str(rng.randint(1, 12)), []).append([rng.choice(allp), str(rng.choice([F(1, 2), F(1), F(3, 2), F(2), F(5, 2)]))])
+        nodev = c["spec"]["ctrl"].get("nodev")
+        if nodev is not None and rng.random() < 0.6:
+            # a fault on a microgrid line that has no sensor (the controller has to count it by inspection, also when it
+            # re-inspects a section that is already flagged)
+            ln = rng.choice(mg_lines)
+            if f"S{ln}" not in nodev:
+                nodev.append(f"S{ln}")
+            c["faults"] = {str(rng.randint(1, 4)): [[ln, str(rng.choice([F(2), F(3), F(7, 2)]))]]}
+            c.pop("single", None)
         cases.append(c)
     return cases
 
